@@ -489,7 +489,7 @@ Qed.
 Definition opened (st : rstate) (pc : ascii) : res (bool * list (option Z) * recipes_t) :=
   if Ascii.eqb pc "("%char then
     a <- (match s_prev_node st with Some p => node_attrs (s_g st) p | None => Err EKey end) ;;
-    Ok (true, s_branch_anchor st ++ [s_prev_node st], rec_set (s_prev_node st) [(1, a, Some 1)] (s_recipes st))
+    Ok (true, s_branch_anchor st ++ [s_prev_node st], rec_set (s_prev_node st) [(1, a, Some 1)] (rec_del (s_prev_node st) (s_recipes st)))
   else Ok (s_branching st, s_branch_anchor st, s_recipes st).
 Lemma node_step_eq fo st pc nm rest :
   node_step fo st pc nm rest =
